@@ -3820,6 +3820,14 @@ class Device(utils.CompositeEventEmitter):
             )  # TODO: timeout
 
         def on_connection(connection):
+            # Only an outgoing LE connection is the result of this request (an
+            # incoming connection may be established while it is pending).
+            if (
+                connection.transport != PhysicalTransport.LE
+                or connection.role != hci.Role.CENTRAL
+                or pending_connection.done()
+            ):
+                return
             pending_connection.set_result(connection)
 
         def on_connection_failure(error: core.ConnectionError):
